@@ -226,6 +226,94 @@ def get_loop():
     return _loop
 
 
+def end_ok(end, a):
+    end["res"] = "answer"
+    end["ans"] = ["ans", from_name(a.qname), answer_proj(a), dns.rdatatype.to_text(a.rdtype), dns.rdataclass.to_text(a.rdclass)]
+
+
+def end_exc(end, e):
+    if isinstance(e, ScriptExhausted):
+        end["res"] = "exhausted"
+    elif isinstance(e, Exception):
+        end["res"] = classify_exc(e)
+        if isinstance(e, dns.resolver.NXDOMAIN):
+            end["nxq"] = [from_name(n) for n in e.qnames()]
+    else:
+        raise e
+
+
+def end_common(end, env, res, clock):
+    end["now"] = clock.now()
+    end["left"] = len(env.queue)
+    end["cache"] = cache_proj(res.cache, clock.time())
+    env.ev.append(end)
+
+
+def run_resolve_name(res, mode, backend, env, clock, cfg, st):
+    """resolve_name(name, family=AF_UNSPEC): the method calls self.resolve() twice (AAAA, then A); those calls
+    are observed at the public method boundary by an instance-level wrapper that logs begin / end events."""
+    import socket
+    real = res.resolve   # bound method of the class
+    stage = [0]
+
+    def begin_event(qname, rdtype, kw):
+        stage[0] += 1
+        if isinstance(qname, str):
+            qname = dns.name.from_text(qname, None)
+        lt = kw.get("lifetime")
+        ticks, exact = (0, True) if lt is None else clock.exact_ticks(lt)
+        srch = kw.get("search")
+        env.ev.append({"op": "begin", "api": "name%d" % min(stage[0], 2), "qname": from_name(qname),
+                       "search": "none" if srch is None else ("true" if srch else "false"), "life": ticks if exact else -1,
+                       "qtype": dns.rdatatype.to_text(dns.rdatatype.RdataType.make(rdtype)),
+                       "qclass": dns.rdataclass.to_text(dns.rdataclass.RdataClass.make(kw.get("rdclass", IN))),
+                       "rna": bool(kw.get("raise_on_no_answer", True)), "now": clock.now()})
+
+    def sync_wrapper(qname, rdtype=dns.rdatatype.A, *args, **kw):
+        begin_event(qname, rdtype, kw)
+        end = {"op": "end", "ans": ["none"], "nxq": []}
+        try:
+            a = real(qname, rdtype, *args, **kw)
+            end_ok(end, a)
+            return a
+        except BaseException as e:  # noqa
+            end_exc(end, e)
+            raise
+        finally:
+            end_common(end, env, res, clock)
+
+    async def async_wrapper(qname, rdtype=dns.rdatatype.A, *args, **kw):
+        begin_event(qname, rdtype, kw)
+        end = {"op": "end", "ans": ["none"], "nxq": []}
+        try:
+            a = await real(qname, rdtype, *args, **kw)
+            end_ok(end, a)
+            return a
+        except BaseException as e:  # noqa
+            end_exc(end, e)
+            raise
+        finally:
+            end_common(end, env, res, clock)
+
+    kw = dict(tcp=cfg["tcp"], raise_on_no_answer=cfg["rna"], search={"none": None, "true": True, "false": False}[st["search"]],
+              lifetime=None if st["life"] == 0 else st["life"] * TICK)
+    fin = {"op": "nameend", "res": "ok"}
+    res.resolve = sync_wrapper if mode == "sync" else async_wrapper
+    try:
+        if mode == "sync":
+            res.resolve_name(to_name(st["qname"]), socket.AF_UNSPEC, **kw)
+        else:
+            get_loop().run_until_complete(res.resolve_name(to_name(st["qname"]), socket.AF_UNSPEC, backend=backend, **kw))
+    except ScriptExhausted:
+        fin["res"] = "exhausted"
+    except Exception as e:  # noqa
+        fin["res"] = classify_exc(e)
+    finally:
+        del res.resolve
+    fin["now"] = clock.now()
+    env.ev.append(fin)
+
+
 def run_script(script, mode, tid):
     cfg = script[0]
     clock = VClock(TICK, cfg["t0"])
@@ -284,7 +372,11 @@ def run_script(script, mode, tid):
             while j < len(script) and script[j]["op"] == "out":
                 j += 1
             env.queue = list(script[i + 1:j])
-            env.ev.append({"op": "begin", "qname": st["qname"], "search": st["search"], "life": st["life"],
+            if st.get("api", "resolve") == "name":
+                run_resolve_name(res, mode, backend, env, clock, cfg, st)
+                i = j
+                continue
+            env.ev.append({"op": "begin", "api": "resolve", "qname": st["qname"], "search": st["search"], "life": st["life"],
                            "qtype": st["qtype"], "qclass": st["qclass"], "now": clock.now()})
             kw = dict(rdtype=st["qtype"], rdclass=st["qclass"], tcp=cfg["tcp"], raise_on_no_answer=cfg["rna"],
                       search={"none": None, "true": True, "false": False}[st["search"]],
@@ -295,19 +387,10 @@ def run_script(script, mode, tid):
                     a = res.resolve(to_name(st["qname"]), **kw)
                 else:
                     a = get_loop().run_until_complete(res.resolve(to_name(st["qname"]), backend=backend, **kw))
-                end["res"] = "answer"
-                end["ans"] = ["ans", from_name(a.qname), answer_proj(a), dns.rdatatype.to_text(a.rdtype),
-                              dns.rdataclass.to_text(a.rdclass)]
-            except ScriptExhausted:
-                end["res"] = "exhausted"
-            except Exception as e:  # noqa
-                end["res"] = classify_exc(e)
-                if isinstance(e, dns.resolver.NXDOMAIN):
-                    end["nxq"] = [from_name(n) for n in e.qnames()]
-            end["now"] = clock.now()
-            end["left"] = len(env.queue)
-            end["cache"] = cache_proj(res.cache, clock.time())
-            env.ev.append(end)
+                end_ok(end, a)
+            except BaseException as e:  # noqa
+                end_exc(end, e)
+            end_common(end, env, res, clock)
             i = j
     finally:
         dns.resolver.time, dns.asyncresolver.time = saved
